@@ -30,7 +30,9 @@ RULE = ("Hypothesis draws a valid file (C01 generator) and optionally a fault: b
         " Caller streams include an unbuffered raw file object (checked again after the call's exception has been "
         'released); when an index file exists it is also given directly as the path.'
         ' The TdmsFile constructor is exercised in its argument combinations (read_metadata_only, keep_open) with '
-        'close() and with-blocks; pathlib.Path sources are included.')
+        'close() and with-blocks; pathlib.Path sources are included.'
+        ' A large-chunk job (63 KiB .. 2 MiB chunks, held chunks and index results, optional memmap_dir) judges '
+        'descriptors of the .tdms / .tdms_index files after close().')
 ASSUMPTIONS = [
     "Linux /proc/self/fd accounting",
     "TdmsFile.open() itself raising is outside the statement (reported as a statistic)",
